@@ -432,6 +432,14 @@ func (p *Plug) Execute(ctx context.Context, req any) (any, *plugins.Error) {
 		return nil, &plugins.Error{Message: "transient failure of " + path}
 	case WrongType:
 		return OtherResp{Bogus: path}, nil
+	case RespPerm:
+		return Resp{Path: path, N: n}, &plugins.Error{Message: "permanent failure with a partial result of " + path, Permanent: true}
+	case RespTrans:
+		return Resp{Path: path, N: n}, &plugins.Error{Message: "transient failure with a partial result of " + path}
+	case WrongTrans:
+		return OtherResp{Bogus: path}, &plugins.Error{Message: "transient failure with a junk response of " + path}
+	case WrongPerm:
+		return OtherResp{Bogus: path}, &plugins.Error{Message: "permanent failure with a junk response of " + path, Permanent: true}
 	}
 	return nil, &plugins.Error{Message: "unknown outcome " + out, Permanent: true}
 }
